@@ -478,10 +478,9 @@ func SameObs(exp, got Obs) bool {
 		return true
 	case "bad":
 		return false
-	default: // generic observation of a non-history line (ext.go)
-		return exp.Out == got.Out
 	}
-	return false
+	// generic observation of a non-history line (ext.go)
+	return exp.Out == got.Out
 }
 
 func (o Obs) String() string {
